@@ -20,7 +20,9 @@ CFG = dict(
          "AddOrReplaceIPSet call (member multiset) or its absence.  Each case also renders all static chains of all four "
          "tables with the REAL renderer (nftables/iptables x NFTablesFlowTableOffload on/off x IP version) and parses every rule "
          "with a flow-offload statement into the abstract syntax (hard error on unknown tokens; the set name is tied to the "
-         "set id the manager wrote through the nftables IP-set naming function).  non-trivial = at some flush two endpoints "
+         "set id the manager wrote through the nftables IP-set naming function).  For every workload update the REAL renderer's per-endpoint "
+         "filter chains (WorkloadEndpointToIptablesChains) are rendered for its QoSControls and it is recorded whether a packet-rate or "
+         "connection-limit rule appears: the oracle requires that to coincide with the property's 'connection or packet rate limit'.  non-trivial = at some flush two endpoints "
          "that need the hooks share an address, or an endpoint in the set lost its QoS feature by an update, or changed its "
          "addresses; distinct by (ip version, history, renderer configuration)",
     trusted=["Coq 8.16.1 kernel + vm_compute",
